@@ -547,6 +547,22 @@ func (g *c18Gen) generate(thorough bool, n int) {
 		s1.Setup = []xspec{ss25, ss25ins}
 		g.add(s1)
 	}
+	// a filtered graph search whose filter matches a point that carries the filter property but NOT the vector (indexed
+	// properties are optional): a valid request, answered with the matching points that have a vector
+	nvCreate := spec("setup", "valid", "POST", "/v2/collections", "alice", ctJ,
+		[]byte(`{"id":"novec","indexSchema":{"vec":{"type":"vectorVamana","vectorVamana":{"vectorSize":2,"distanceMetric":"euclidean","searchSize":75,"degreeBound":64,"alpha":1.2}},"cat":{"type":"string","string":{"caseSensitive":true}},"size":{"type":"integer"}}}`))
+	nvIns := spec("setup", "valid", "POST", "/v2/collections/novec/points", "alice", ctJ,
+		[]byte(`{"points":[{"cat":"book","size":0},{"vec":[1,1],"cat":"book","size":1},{"vec":[2,1],"cat":"film","size":2},{"vec":[3,1],"cat":"book","size":3},{"cat":"film","size":4},{"vec":[4,4],"cat":"book","size":5}]}`))
+	for _, f := range []string{
+		`{"property":"cat","string":{"value":"book","operator":"equals"}}`,
+		`{"property":"cat","string":{"value":"film","operator":"equals"}}`,
+		`{"property":"size","integer":{"value":0,"operator":"greaterThanOrEquals"}}`,
+	} {
+		nvs := spec("valid:filtered-vamana-member-without-vector", "valid", "POST", "/v2/collections/novec/points/search", "alice", ctJ,
+			[]byte(`{"query":{"property":"vec","vectorVamana":{"vector":[1,2],"operator":"near","searchSize":75,"limit":10,"filter":`+f+`}},"limit":10}`))
+		nvs.Setup = []xspec{nvCreate, nvIns}
+		g.add(nvs)
+	}
 	// collection ids with letters and digits that are lower case / decimal in Unicode but not in the documented alphabet
 	for _, id := range []string{"café", "straße", "αβγ", "col٣٤", "abc１２", "абв123", "ｃｏｌ"} {
 		g.add(spec("invalid:v2-create-id-unicode", "mutated", "POST", "/v2/collections", "alice", ctJ, jObj("id", jStr(id), "indexSchema", jObj()).JSON()))
